@@ -216,7 +216,7 @@ theorem C16_startup_window : ¬ FullStatement 1 := by
   revert this
   decide
 
-/-- the harness's bound on the shutdown wall time (1 s) is inside the supervisor's stop timeout -/
-theorem C16_bound_inside_stop_timeout : 1 < supervisorStopTimeoutSec := by decide
+/-- the harness's bound on the shutdown wall time (3 s; hung = not joined after 4 s) is inside the supervisor's stop timeout -/
+theorem C16_bound_inside_stop_timeout : 4 < supervisorStopTimeoutSec := by decide
 
 end Glonax.Thm.C16
